@@ -37,6 +37,9 @@ Envelope(ct, data) == <<OP_0, OP_IF, 3, 111, 114, 100, OP_1>> \o PushPrefix(Len(
 InscribeWhy(e) ==
     IF e.script # e.prefix \o Envelope(e.ct, e.data) THEN "layout"
     ELSE IF e.outSats # 1 THEN "value"
+    \* frame: inscribing again from the parsed arguments leaves the first script alone
+    ELSE IF e.after # e.script THEN "source-script-changed"
+    ELSE IF e.parsed.ok /\ e.script2 # e.parsed.prefix \o Envelope(e.ct, e.data2) THEN "layout2"
     ELSE IF ~e.parsed.ok THEN "parse-fails"
     ELSE IF e.parsed.prefix # e.prefix THEN "prefix"
     ELSE IF e.parsed.ct # e.ct THEN (IF e.ct = <<>> THEN "empty-content-type" ELSE "content-type")
